@@ -376,6 +376,7 @@ func extractFacts(pkgs []*packages.Package, prog *ssa.Program, byPath map[string
 	sb.WriteString(commitFacts(p))
 	sb.WriteString(spanFacts(pz))
 	sb.WriteString(bptFacts(p))
+	sb.WriteString(readPathFacts(p))
 	// ---- mode check decision
 	sb.WriteString(modeFacts(p))
 	sb.WriteString(lockFacts(prog, sp))
@@ -618,6 +619,66 @@ func bptFacts(p *packages.Package) string {
 		}
 	}
 	return "/-- bptree.go: the comparisons, loop headers, split indexes, offset and limit counters of the descent, the leaf-chain scans and the insertion: (function, kind, source text), in source order -/\ndef bptStmts : List (String × String × String) := [\n" + strings.Join(items, ",\n") + "]\n\n"
+}
+
+// readPathFacts: every `if` condition (other than plain error tests) and every loop header of the key/value read
+// path of tx_bptree.go — Get, GetAll, RangeScan, PrefixScan, PrefixSearchScan, the hint wrapper, and the
+// sparse-mode functions above the on-disk node files — (function, kind, source text), in source order.
+func readPathFacts(p *packages.Package) string {
+	want := map[string]bool{"getNewKey": true, "getByHintBPTSparseIdxInMem": true, "getByHintBPTSparseIdxOnDisk": true, "getByHintBPTSparseIdx": true,
+		"getAllByHintBPTSparseIdx": true, "Get": true, "GetAll": true, "RangeScan": true, "rangeScanOnDisk": true, "prefixScanOnDisk": true,
+		"prefixSearchScanOnDisk": true, "processEntriesScanOnDisk": true, "prefixScanByHintBPTSparseIdx": true,
+		"prefixSearchScanByHintBPTSparseIdx": true, "PrefixScan": true, "PrefixSearchScan": true, "Delete": true, "getHintIdxDataItemsWrapper": true}
+	var items []string
+	if p != nil {
+		for _, f := range p.Syntax {
+			if !strings.HasSuffix(p.Fset.Position(f.Pos()).Filename, "/tx_bptree.go") {
+				continue
+			}
+			for _, d := range f.Decls {
+				fd, ok := d.(*ast.FuncDecl)
+				if !ok || fd.Body == nil || !want[fd.Name.Name] {
+					continue
+				}
+				name := fd.Name.Name
+				add := func(kind, text string) {
+					items = append(items, fmt.Sprintf("  (%s, %s, %s)", leanStr(name), leanStr(kind), leanStr(text)))
+				}
+				ast.Inspect(fd.Body, func(n ast.Node) bool {
+					switch x := n.(type) {
+					case *ast.ForStmt:
+						h := ""
+						if as, ok := x.Init.(*ast.AssignStmt); ok && len(as.Lhs) == 1 {
+							h = exprStr(p.Fset, as.Lhs[0]) + " " + as.Tok.String() + " " + exprStr(p.Fset, as.Rhs[0])
+						}
+						h += "; "
+						if x.Cond != nil {
+							h += exprStr(p.Fset, x.Cond)
+						}
+						h += "; "
+						if id, ok := x.Post.(*ast.IncDecStmt); ok {
+							h += exprStr(p.Fset, id.X) + id.Tok.String()
+						}
+						add("for", h)
+					case *ast.RangeStmt:
+						add("range", exprStr(p.Fset, x.X))
+					case *ast.IfStmt:
+						t := exprStr(p.Fset, x.Cond)
+						if t != "err != nil" && t != "err == nil" {
+							add("if", t)
+						}
+					case *ast.CallExpr:
+						fn := exprStr(p.Fset, x.Fun)
+						if fn == "sort.Sort" || fn == "sort.Slice" || strings.HasSuffix(fn, "SortFID") || fn == "sort.SliceStable" {
+							add("sort", exprStr(p.Fset, x))
+						}
+					}
+					return true
+				})
+			}
+		}
+	}
+	return "/-- tx_bptree.go: conditions and loop headers of the key/value read path (RAM and sparse modes): (function, kind, source text), in source order -/\ndef readPathStmts : List (String × String × String) := [\n" + strings.Join(items, ",\n") + "]\n\n"
 }
 
 // modeFacts: the two refusal conditions of checkEntryIdxMode, as printed source.
